@@ -24,10 +24,19 @@ def secs(t):
     return '203001%02dT%02d%02d%02dZ' % (1 + d, r // 3600, r // 60 % 60, r % 60)
 
 
-def task_ics(uid, occ, maxsim=0, owner=None, dur=None, method='PUBLISH', extra=()):
-    """one VEVENT whose occurrences are exactly occ (seconds after T0), as an RDATE list"""
-    L = ['BEGIN:VEVENT', 'UID:' + uid, 'SUMMARY:echo ' + uid, 'DTSTART:' + secs(min(occ) if occ else 0)]
-    if occ: L.append('RDATE:' + ','.join(secs(t) for t in occ))
+def days(t):
+    """whole days after 2030-01-01 -> DATE text"""
+    return '203001%02d' % (1 + t // 86400)
+
+
+def task_ics(uid, occ, maxsim=0, owner=None, dur=None, method='PUBLISH', extra=(), allday=False):
+    """one VEVENT whose occurrences are exactly occ (seconds after T0), as an RDATE list; allday: occ are whole days, written as DATEs"""
+    if allday:
+        L = ['BEGIN:VEVENT', 'UID:' + uid, 'SUMMARY:echo ' + uid, 'DTSTART;VALUE=DATE:' + days(min(occ) if occ else 0)]
+        if occ: L.append('RDATE;VALUE=DATE:' + ','.join(days(t) for t in occ))
+    else:
+        L = ['BEGIN:VEVENT', 'UID:' + uid, 'SUMMARY:echo ' + uid, 'DTSTART:' + secs(min(occ) if occ else 0)]
+        if occ: L.append('RDATE:' + ','.join(secs(t) for t in occ))
     if dur is not None: L.append('DURATION:' + dur)
     if maxsim: L.append('X-ECHS-MAX-SIMUL:%d' % maxsim)
     if owner is not None: L.append('X-ECHS-OWNER:%s' % owner)
@@ -41,7 +50,7 @@ def request(items, method='PUBLISH'):
     L = ['BEGIN:VCALENDAR', 'VERSION:2.0', 'METHOD:' + method]
     for it in items:
         if it['kind'] == 'add':
-            L += task_ics(it['uid'], it['occ'], it.get('maxsim', 0), it.get('owner_uid', it.get('owner_name')), it.get('dur'), extra=it.get('extra', ()))
+            L += task_ics(it['uid'], it['occ'], it.get('maxsim', 0), it.get('owner_uid', it.get('owner_name')), it.get('dur'), extra=it.get('extra', ()), allday=it.get('allday', False))
         else:
             L += ['BEGIN:VEVENT', 'UID:' + it['uid'], 'DTSTART:' + secs(0), 'END:VEVENT']
     L += ['END:VCALENDAR', '']
@@ -156,6 +165,27 @@ def random_script(rnd, ntasks=3, peers=(1000,), horizon=14, maxsims=(0, 0, 1, 2)
     # drain: let everything still due happen, all children exit
     for _ in range(3):
         cmds += ['T\t%d' % (horizon * 3 + 5), 'R', 'DA'] + ['XI\t0', 'DA'] * 8
+    cmds.append('Q')
+    return cmds, metas
+
+
+def allday_script(rnd, ntasks=3, peers=(1000,)):
+    """tasks whose occurrences are plain dates (DTSTART;VALUE=DATE): due at 00:00:00 UTC of their date; the clock moves in
+    hours and days, across and exactly onto the midnights"""
+    cmds, metas = [], {}
+    D = 86400
+    for i in range(ntasks):
+        allday = rnd.random() < 0.75
+        if allday: occ = sorted(set(D * rnd.randint(0, 4) for _ in range(rnd.randint(1, 3))))
+        else: occ = sorted(set(rnd.choice([5, 3600, D - 1, D, D + 1, 2 * D + 7, 3 * D]) for _ in range(rnd.randint(1, 3))))
+        it = {'kind': 'add', 'uid': 'd%d' % (i + 1), 'occ': occ, 'maxsim': 0, 'peer': rnd.choice(peers), 'allday': allday}
+        metas[len(cmds)] = [it]; cmds.append(areq(rnd, it['peer'], request([it])))
+    for _ in range(rnd.randint(6, 14)):
+        cmds.append('T\t%d' % rnd.choice([1, 3600, 43200, D - 5, D - 1, D, D + 1, 5])); cmds.append('R')
+        if rnd.random() < 0.8: cmds.append('DA')
+        if rnd.random() < 0.6: cmds += ['XI\t0', 'DA']
+    for _ in range(3):
+        cmds += ['T\t%d' % (6 * D), 'R', 'DA'] + ['XI\t0', 'DA'] * 6
     cmds.append('Q')
     return cmds, metas
 
@@ -283,15 +313,16 @@ def chk_experiment(drv, wd, cmds, metas, k=None, mode=None):
             'rc3': rc3 or rc4, 'ev3': ev3, 'files3': files3, 'armed3': armed3}
 
 
-def chk_history(rnd, users=(1000, 1001), uids=('a', 'b', 'c', 'd'), nreq=5, fat=False):
+def chk_history(rnd, users=(1000, 1001), uids=('a', 'b', 'c', 'd'), nreq=5, fat=False, every_user=False):
     cmds, metas = [], {}
     FAR = 5000
+    todo = list(users) if every_user else []      # every_user: each user changes something before the first checkpoint
     def req():
-        p = rnd.choice(users)
-        if rnd.random() < 0.7:
+        p = todo.pop() if todo else rnd.choice(users)
+        if todo or every_user and len(cmds) < len(users) or rnd.random() < 0.7:
             items = []
             for _ in range(rnd.choice([1, 1, 2, 3])):
-                it = {'kind': 'add', 'uid': rnd.choice(uids), 'occ': sorted(set(FAR + rnd.randint(0, 50) for _ in range(rnd.randint(1, 3)))), 'maxsim': 0, 'peer': p}
+                it = {'kind': 'add', 'uid': ('own%d' % p) if every_user and rnd.random() < 0.6 else rnd.choice(uids), 'occ': sorted(set(FAR + rnd.randint(0, 50) for _ in range(rnd.randint(1, 3)))), 'maxsim': 0, 'peer': p}
                 if fat: it['extra'] = ['DESCRIPTION:' + 'x' * rnd.choice([200, 900, 1000])] * 1 + ['ATTENDEE:mailto:%s@example.com' % ('y' * 60)] * rnd.randint(0, 5)
                 items.append(it)
             metas[len(cmds)] = items; cmds.append(areq(rnd, p, request(items)))
